@@ -104,11 +104,139 @@ func registerOne(s *cases.Set, up bool, cid byte, size int) bool {
 func propNow(up bool) map[byte]int {
 	m := map[byte]int{}
 	for _, h := range history {
-		if h.up == up && h.cid >= 128 && h.size > 0 {
+		if h.up != up || h.cid < 128 || h.size < 0 {
+			continue
+		}
+		if h.size > 0 { // the last accepted registration decides ...
 			m[h.cid] = h.size
+		} else { // ... and size 0 means "no payload": the CID is framed with 0 bytes again
+			delete(m, h.cid)
 		}
 	}
 	return m
+}
+
+// sizeNow is the harness's own book-keeping of what (direction, CID) carries: the specification's
+// table for built-in CIDs, the registration history for proprietary ones. It never asks the library.
+func sizeNow(up bool, cid byte) (size int, kind string) {
+	for _, b := range macfmt.Builtin {
+		if b.Up == up && byte(b.CID) == cid {
+			return macfmt.Kinds[macfmt.KindIndex(b.Kind)].Size, b.Kind
+		}
+	}
+	if n, ok := propNow(up)[cid]; ok {
+		return n, "KProprietary"
+	}
+	return 0, ""
+}
+
+// inconsistent says whether a command is NOT a command of the direction at this moment: a CID
+// without the payload it has, with a payload it does not have, with a payload of another kind, or
+// a proprietary payload whose length is not the registered size. (Finding C07-8.)
+func inconsistent(up bool, mc *lorawan.MACCommand) (bool, string) {
+	size, kind := sizeNow(up, byte(mc.CID))
+	if mc.Payload == nil {
+		return kind != "", "nil-payload"
+	}
+	if kind == "" {
+		return true, "foreign-payload"
+	}
+	if pp, ok := mc.Payload.(*lorawan.ProprietaryMACCommandPayload); ok {
+		if kind != "KProprietary" {
+			return true, "foreign-payload"
+		}
+		return len(pp.Bytes) != size, "prop-len"
+	}
+	return macfmt.KindOf(mc.Payload) != kind, "foreign-payload"
+}
+
+// uncheckedCase: a valid sequence with one command made inconsistent at a random position.
+// MACCommand.MarshalBinary accepts it (no direction argument, no look at the registry); the bytes
+// decode as another sequence or not at all. Recorded as finding C07-8 (known): the case is keyed
+// `cmds-unchecked:<class>:...` only after the harness's own book-keeping confirms the inconsistency.
+func uncheckedCase(s *cases.Set, r *cq.RNG, up bool, base []lorawan.Payload, bad *lorawan.MACCommand, at int, tag string) {
+	isBad, class := inconsistent(up, bad)
+	if !isBad {
+		panic("c07: uncheckedCase with a consistent command " + macfmt.Item(bad))
+	}
+	if at > len(base) {
+		at = len(base)
+	}
+	cmds := append(append(append([]lorawan.Payload{}, base[:at]...), bad), base[at:]...)
+	var all []byte
+	oenc := ""
+	func() {
+		defer func() {
+			if rec := recover(); rec != nil {
+				oenc = cq.Panic
+			}
+		}()
+		for _, c := range cmds {
+			b, err := c.MarshalBinary()
+			if err != nil {
+				oenc = cq.Err
+				return
+			}
+			all = append(all, b...)
+		}
+		oenc = cq.Ok(cq.Bytes(all))
+	}()
+	odec := cq.Err
+	if strings.HasPrefix(oenc, "(Ok") {
+		odec = decodeStream(up, all)
+	}
+	t := macfmt.Items(cmds)
+	s.Add(cases.Case{Term: fmt.Sprintf("CCmdsUnchecked %v %s %s %s %s", up, histTerm(), t, oenc, odec),
+		Key: fmt.Sprintf("cmds-unchecked:%s:up=%v:at=%d:%x", class, up, at, all), Kind: "cmds-unchecked-" + tag + "-" + class, Nontrivial: true,
+		Replay: map[string]interface{}{"api": "MACCommand.MarshalBinary x n (one command inconsistent with the registry), PHYPayload.DecodeFRMPayloadToMACCommands",
+			"uplink": up, "commands": t, "inconsistent": macfmt.Item(bad), "class": class, "history": histTerm(), "bytes": fmt.Sprintf("%x", all)}})
+}
+
+// randomBad makes a command that is not one of the direction: see inconsistent.
+func randomBad(r *cq.RNG, up bool) *lorawan.MACCommand {
+	var with, without []byte // CIDs with / without a payload in this direction (harness book-keeping)
+	for c := 0; c < 256; c++ {
+		if _, k := sizeNow(up, byte(c)); k != "" {
+			with = append(with, byte(c))
+		} else {
+			without = append(without, byte(c))
+		}
+	}
+	for {
+		var mc *lorawan.MACCommand
+		switch r.Intn(5) {
+		case 0: // the payload is missing
+			mc = &lorawan.MACCommand{CID: lorawan.CID(with[r.Intn(len(with))])}
+		case 1: // a payload (of any built-in kind) for a CID that has none
+			mc = &lorawan.MACCommand{CID: lorawan.CID(without[r.Intn(len(without))]), Payload: macfmt.Random(r, r.Intn(len(macfmt.Kinds)), true)}
+		case 2: // proprietary bytes for a CID that has none (never registered, de-registered, other direction only)
+			mc = &lorawan.MACCommand{CID: lorawan.CID(without[r.Intn(len(without))] | 0x80), Payload: &lorawan.ProprietaryMACCommandPayload{Bytes: r.Bytes(1 + r.Intn(4))}}
+		case 3: // a built-in CID with the payload of another kind
+			mc = &lorawan.MACCommand{CID: lorawan.CID(with[r.Intn(len(with))]), Payload: macfmt.Random(r, r.Intn(len(macfmt.Kinds)), true)}
+		default: // a registered proprietary CID with more or fewer bytes than registered
+			prop := propNow(up)
+			if len(prop) == 0 {
+				continue
+			}
+			var cids []byte
+			for c := 128; c < 256; c++ {
+				if _, ok := prop[byte(c)]; ok {
+					cids = append(cids, byte(c))
+				}
+			}
+			cid := cids[r.Intn(len(cids))]
+			n := prop[cid] + []int{-1, 1, 2, -prop[cid], 7}[r.Intn(5)]
+			if n < 0 {
+				n = 0
+			}
+			mc = &lorawan.MACCommand{CID: lorawan.CID(cid), Payload: &lorawan.ProprietaryMACCommandPayload{Bytes: r.Bytes(n)}}
+		}
+		if bad, _ := inconsistent(up, mc); bad {
+			if _, err := mc.MarshalBinary(); err == nil {
+				return mc
+			}
+		}
+	}
 }
 
 func randomCmds(r *cq.RNG, up bool, maxBytes int, valid bool) []lorawan.Payload {
@@ -186,7 +314,7 @@ func backing(cmds []lorawan.Payload) string {
 // Coq; here the frame route must agree with them: an out-of-range command anywhere in the sequence is
 // reported by the frame encoder too, and an encodable sequence comes back as the same commands.
 func frameRoute(s *cases.Set, up bool, cmds []lorawan.Payload, all []byte, oenc, odec string) {
-	if oenc == cq.Panic || len(cmds) == 0 {
+	if oenc == cq.Panic {
 		return
 	}
 	t := macfmt.Items(cmds)
@@ -282,12 +410,42 @@ func cmdsCase(s *cases.Set, r *cq.RNG, up bool, cmds []lorawan.Payload, tag stri
 		Replay: map[string]interface{}{"api": "MACCommand.MarshalBinary x n, PHYPayload.DecodeFRMPayloadToMACCommands", "uplink": up, "commands": t, "history": histTerm(), "bytes": fmt.Sprintf("%x", all)}})
 }
 
+// histCase: results of every registration so far + probes of the registry
+func histCase(s *cases.Set, tag string) {
+	var oks []string
+	for i := range history {
+		oks = append(oks, cq.Bool(histOK[i]))
+	}
+	var probes []string
+	for _, up := range []bool{false, true} {
+		for cid := 0; cid < 256; cid++ {
+			if cid < 0x30 || cid >= 0x7c || cid%16 == 0 {
+				p, size, err := lorawan.GetMACPayloadAndSize(up, lorawan.CID(cid))
+				o := cq.None
+				if err == nil {
+					o = cq.Some(cq.Tuple(cq.Z(int64(size)), macfmt.KindOf(p)))
+				}
+				probes = append(probes, fmt.Sprintf("((%v, %d), %s)", up, cid, o))
+			}
+		}
+	}
+	s.Add(cases.Case{Term: fmt.Sprintf("CHist %s %s %s", histTerm(), cq.List(oks), cq.List(probes)),
+		Key: fmt.Sprintf("hist:%s:%s", tag, histTerm()), Kind: "registration-history", Nontrivial: len(history) > 0,
+		Replay: map[string]interface{}{"api": "RegisterProprietaryMACCommand history then GetMACPayloadAndSize", "history": histTerm()}})
+}
+
+func streamCase(s *cases.Set, up bool, bs []byte) {
+	s.Add(cases.Case{Term: fmt.Sprintf("CStream %v %s %s %s", up, histTerm(), cq.Bytes(bs), decodeStream(up, bs)),
+		Key: fmt.Sprintf("stream:up=%v:%x", up, bs), Kind: fmt.Sprintf("raw-stream-up=%v", up), Nontrivial: len(bs) > 1,
+		Replay: map[string]interface{}{"api": "PHYPayload.DecodeFRMPayloadToMACCommands", "uplink": up, "bytes": fmt.Sprintf("%x", bs), "history": histTerm()}})
+}
+
 func main() {
 	log.SetOutput(io.Discard)
 	dir, seed, thorough := cases.Args()
 	r := cq.NewRNG(seed)
 	s := cases.New("C07", dir, "LW.Corr.C07",
-		"round trips: per payload kind full-domain sweeps of single-byte fields, boundary+random for uint32/int8/int/Duration fields (in-range and out-of-range streams); command sequences of 1..40 commands up to 15 (FOpts) and 242 (FRMPayload) bytes per direction with built-in, proprietary-registered and payload-less CIDs; raw byte strings through the stream decoder; cumulative proprietary registration histories (CIDs 0..255, sizes 0..20; negative sizes are exercised by cmd/c09 in a child process) with registry probes. Non-trivial: sequences with >1 command, all other cases.")
+		"round trips: per payload kind full-domain sweeps of single-byte fields, boundary+random for uint32/int8/int/Duration fields (in-range and out-of-range streams); command sequences of 1..40 commands up to 15 (FOpts) and 242 (FRMPayload) bytes per direction with built-in, proprietary-registered and payload-less CIDs; raw byte strings through the stream decoder; cumulative proprietary registration histories (CIDs 0..255, sizes 0..20, size 0 after a positive size and the reverse, in both directions; negative sizes are exercised by cmd/c09 in a child process) with registry probes; the empty sequence; sequences with one command that is not a command of the direction (payload missing, foreign, proprietary length not the registered size: finding C07-8). Non-trivial: sequences with >1 command, all other cases.")
 	s.ShardSize = 400
 	s.Watchdog(3 * time.Second)
 	nRT, nSeq, nRaw := 40, 120, 100
@@ -299,6 +457,38 @@ func main() {
 	roundTrip(s, &lorawan.NewChannelReqPayload{ChIndex: 3, Freq: 2400000100, MaxDR: 5, MinDR: 0}, macfmt.KindIndex("KNewChannelReq")) // C07-1 (fixed)
 	roundTrip(s, &lorawan.DeviceTimeAnsPayload{TimeSinceGPSEpoch: -1000000000}, macfmt.KindIndex("KDeviceTimeAns"))                   // C07-3 (fixed)
 	roundTrip(s, &lorawan.TXParamSetupReqPayload{UplinkDwellTime: 2, MaxEIRP: 3}, macfmt.KindIndex("KTXParamSetupReq"))               // C07-4 (fixed)
+	roundTrip(s, &lorawan.ForceRejoinReqPayload{Period: 4, MaxRetries: 3, RejoinType: 1, DR: 2}, macfmt.KindIndex("KForceRejoinReq")) // C07-5 (fixed): 0e 12 23
+	for rt := 0; rt < 8; rt++ {                                                                                                       // RejoinType: the whole 3-bit field and beyond
+		roundTrip(s, &lorawan.ForceRejoinReqPayload{Period: 3, MaxRetries: 4, RejoinType: uint8(rt), DR: 5}, macfmt.KindIndex("KForceRejoinReq"))
+	}
+	// C07-7 (fixed): the empty command sequence, in FOpts and on port 0 (FPort 0 without FRMPayload), both directions
+	cmdsCase(s, r, false, nil, "empty")
+	cmdsCase(s, r, true, nil, "empty")
+	// C07-8 (known): commands that are not commands of the direction; witnesses of C07_stream_unchecked_refuted
+	dsr := func() lorawan.Payload { return &lorawan.MACCommand{CID: lorawan.DevStatusReq} }
+	uncheckedCase(s, r, false, []lorawan.Payload{dsr(), dsr(), dsr(), dsr()}, &lorawan.MACCommand{CID: lorawan.LinkADRReq}, 0, "witness")
+	uncheckedCase(s, r, false, nil, &lorawan.MACCommand{CID: lorawan.DevStatusReq, Payload: &lorawan.DevStatusAnsPayload{Battery: 6, Margin: 6}}, 0, "witness")
+	// C07-6 (fixed): a size, then size 0, both accepted: the CID is framed with 0 bytes again. The auditor's history
+	// (uplink 0x90: 3 then 0, stream 90 02 02 02 = four commands), the same downlink, and the reverse order (0 then 4)
+	registerOne(s, true, 0x90, 3)
+	registerOne(s, true, 0x90, 0)
+	registerOne(s, false, 0x91, 5)
+	registerOne(s, false, 0x91, 0)
+	registerOne(s, false, 0x92, 0)
+	registerOne(s, false, 0x92, 4)
+	histCase(s, "corpus")
+	lcr := func() lorawan.Payload { return &lorawan.MACCommand{CID: lorawan.LinkCheckReq} }
+	cmdsCase(s, r, true, []lorawan.Payload{&lorawan.MACCommand{CID: 0x90}, lcr(), lcr(), lcr()}, "reregister-zero")
+	cmdsCase(s, r, false, []lorawan.Payload{&lorawan.MACCommand{CID: 0x91}, dsr(), dsr(), dsr(), dsr(), dsr()}, "reregister-zero")
+	cmdsCase(s, r, false, []lorawan.Payload{&lorawan.MACCommand{CID: 0x92, Payload: &lorawan.ProprietaryMACCommandPayload{Bytes: []byte{6, 6, 6, 6}}}, dsr()}, "reregister-zero")
+	streamCase(s, true, []byte{0x90, 0x02, 0x02, 0x02})
+	streamCase(s, false, []byte{0x91, 0x06, 0x06, 0x06, 0x06, 0x06})
+	streamCase(s, false, []byte{0x92, 0x06, 0x06, 0x06, 0x06, 0x06})
+	// C07-8 (known), proprietary part: registered with 2 bytes, sent with 3, with 1, and under a CID never registered
+	registerOne(s, false, 0xa0, 2)
+	uncheckedCase(s, r, false, []lorawan.Payload{dsr(), dsr()}, &lorawan.MACCommand{CID: 0xa0, Payload: &lorawan.ProprietaryMACCommandPayload{Bytes: []byte{6, 6, 6}}}, 0, "witness")
+	uncheckedCase(s, r, false, []lorawan.Payload{dsr(), dsr()}, &lorawan.MACCommand{CID: 0xa0, Payload: &lorawan.ProprietaryMACCommandPayload{Bytes: []byte{6}}}, 0, "witness")
+	uncheckedCase(s, r, false, []lorawan.Payload{dsr(), dsr()}, &lorawan.MACCommand{CID: 0xa1, Payload: &lorawan.ProprietaryMACCommandPayload{Bytes: []byte{6, 6}}}, 0, "witness")
 	// frequency fields: every residue class that matters for the 100 Hz / 200 Hz stepping around bases of every range
 	for _, base := range []uint32{0, 868100000, 1199999900, 1200000000, 1677721400, 2399999800, 2400000000, 2422000000, 2483400000, 3355443000, 3355443200, 4294967000} {
 		for _, d := range []uint32{0, 1, 2, 50, 99, 100, 101, 150, 199, 200, 201} {
@@ -356,33 +546,29 @@ func main() {
 					break
 				}
 			}
-		}
-		// history case: results of every call + probes
-		var oks []string
-		for i := range history {
-			oks = append(oks, cq.Bool(histOK[i]))
-		}
-		var probes []string
-		for _, up := range []bool{false, true} {
-			for cid := 0; cid < 256; cid++ {
-				if cid < 0x30 || cid >= 0x7c || cid%16 == 0 {
-					p, size, err := lorawan.GetMACPayloadAndSize(up, lorawan.CID(cid))
-					o := cq.None
-					if err == nil {
-						o = cq.Some(cq.Tuple(cq.Z(int64(size)), macfmt.KindOf(p)))
+			// size 0 after a positive size takes the registration back (C07-6), in each direction; and a positive
+			// size after size 0 registers as usual
+			for _, up := range []bool{false, true} {
+				prop := propNow(up)
+				for c := 128; c < 256; c++ { // in CID order: map iteration order must not reach the case stream
+					if _, ok := prop[byte(c)]; ok && r.Intn(3) == 0 {
+						registerOne(s, up, byte(c), 0)
+						if r.Intn(2) == 0 {
+							registerOne(s, up, byte(c), 1+r.Intn(6))
+						}
+						break
 					}
-					probes = append(probes, fmt.Sprintf("((%v, %d), %s)", up, cid, o))
 				}
 			}
 		}
-		s.Add(cases.Case{Term: fmt.Sprintf("CHist %s %s %s", histTerm(), cq.List(oks), cq.List(probes)),
-			Key: fmt.Sprintf("hist:phase=%d:%s", phase, histTerm()), Kind: "registration-history", Nontrivial: len(history) > 0,
-			Replay: map[string]interface{}{"api": "RegisterProprietaryMACCommand history then GetMACPayloadAndSize", "history": histTerm()}})
+		histCase(s, fmt.Sprintf("phase=%d", phase))
 		for i := 0; i < nSeq/6; i++ {
 			up := r.Bool()
 			cmdsCase(s, r, up, randomCmds(r, up, 15, true), "fopts-valid")
 			cmdsCase(s, r, up, randomCmds(r, up, 242, true), "frm-valid")
 			cmdsCase(s, r, up, randomCmds(r, up, 60, false), "mixed")
+			base := randomCmds(r, up, 40, true)
+			uncheckedCase(s, r, up, base, randomBad(r, up), r.Intn(len(base)+1), "random")
 		}
 		for i := 0; i < nRaw/6; i++ {
 			up := r.Bool()
@@ -396,9 +582,7 @@ func main() {
 					bs[j] = byte(macfmt.Builtin[r.Intn(len(macfmt.Builtin))].CID)
 				}
 			}
-			s.Add(cases.Case{Term: fmt.Sprintf("CStream %v %s %s %s", up, histTerm(), cq.Bytes(bs), decodeStream(up, bs)),
-				Key: fmt.Sprintf("stream:up=%v:%x", up, bs), Kind: fmt.Sprintf("raw-stream-up=%v", up), Nontrivial: n > 1,
-				Replay: map[string]interface{}{"api": "PHYPayload.DecodeFRMPayloadToMACCommands", "uplink": up, "bytes": fmt.Sprintf("%x", bs), "history": histTerm()}})
+			streamCase(s, up, bs)
 		}
 	}
 	if err := s.Finish(); err != nil {
